@@ -4,6 +4,7 @@
 mod bounded;
 mod bounded2;
 mod bounded3;
+mod bounded4;
 use ommx::v1::{self, decision_variable::Kind, Constraint, DecisionVariable, Equality, Function, Instance, Linear};
 use std::collections::HashMap;
 
